@@ -83,6 +83,9 @@ type World struct {
 	clients map[int]*goidc.Client
 	allowed bool
 	extraTargets []string
+	// state outside the three storages that suite c18 changes between requests (what the clients'
+	// jwks_uri / sector_identifier_uri / request_uri / notification endpoints answer); nil elsewhere
+	c18 *c18Remote
 }
 
 func clientName(id int) string { return fmt.Sprintf("c%d", id) }
@@ -171,6 +174,15 @@ func (cs ClientSpec) build() *goidc.Client {
 		c.JARMSigAlg = goidc.ES256
 	}
 	c.CIBAUserCodeIsEnabled = cs.UserCode
+	if cs.Authn != "" {
+		c.TokenAuthnMethod = goidc.ClientAuthnType(cs.Authn)
+		c.HashedSecret = ""
+	}
+	if cs.JwksURI {
+		c.PublicJWKSURI = c18JwksURI(cs.ID)
+	} else if cs.Authn != "" {
+		c.PublicJWKS = c18InlineJWKS(cs.ID)
+	}
 	return c
 }
 
